@@ -172,7 +172,7 @@ class World:
             self.fs = FakeSnow(**self.fs_opts)
             return {"ok": True}
         if k == "connect":
-            kw = {x: op[x] for x in ("database", "schema") if op.get(x) is not None}
+            kw = {x: op[x] for x in ("database", "schema", "session_parameters") if op.get(x) is not None}
             self.conns[sid] = self.fs.connect(**kw)
             for key in [c for c in self.cursors if c[0] == sid]:
                 del self.cursors[key]
